@@ -440,6 +440,7 @@ fn main() {
     let rounds = args.u64("rounds", 120);
     let tools = Tools::locate();
     let started = Instant::now();
+    let deadline = started + std::time::Duration::from_secs(args.u64("deadline", 3600));
     let ids: Vec<u64> = match args.get("round") {
         Some(r) => vec![r.parse().expect("--round")],
         None => (0..rounds).collect(),
@@ -458,6 +459,10 @@ fn main() {
                     let i = next.fetch_add(1, std::sync::atomic::Ordering::Relaxed);
                     if i >= ids.len() {
                         break;
+                    }
+                    if Instant::now() > deadline {
+                        rep.count("rounds_skipped_deadline", 1);
+                        continue;
                     }
                     if mode == "gate" {
                         gate_round(seed, ids[i], &tools, &mut rep);
